@@ -161,7 +161,7 @@ fn check() {
         explore(&cfg, &b, &check, &stats);
     });
     let ex = stats.executions.load(Ordering::Relaxed);
-    if ex < 3000 || resets.load(Ordering::Relaxed) == 0 || stats.distinct.len() < 15 {
+    if chk.violation_count() == 0 && (ex < 3000 || resets.load(Ordering::Relaxed) == 0 || stats.distinct.len() < 15) {
         machinery(format!("vacuous: executions={ex} with-reset={} distinct={}", resets.load(Ordering::Relaxed), stats.distinct.len()));
     }
     let coverage = json!({
